@@ -12,7 +12,11 @@ use super::vfs::VfsPathBuf;
 lazy_static! {
     pub(crate) static ref FLOAT_RE: Regex = Regex::new(r"^-?[0-9][0-9_]*\.[0-9][0-9_]*").unwrap();
     pub(crate) static ref INTEGER_RE: Regex = Regex::new(r"^-?[0-9][0-9_]*").unwrap();
-    pub(crate) static ref STRING_RE: Regex = Regex::new(r#"^"(\\"|[^"])*("|\z)"#).unwrap();
+    // A backslash escapes the next character, so `\\` is an escaped
+    // backslash and does not escape a following doublequote. A lone
+    // backslash at the end of the input is part of an unclosed string.
+    pub(crate) static ref STRING_RE: Regex =
+        Regex::new(r#"^"(\\(?s:.)|[^"\\]|\\\z)*("|\z)"#).unwrap();
     pub(crate) static ref SYMBOL_RE: Regex = Regex::new(r"^[a-zA-Z_][a-zA-Z0-9_]*").unwrap();
 }
 
@@ -277,8 +281,7 @@ pub(crate) fn lex_between<'a>(
                 // Well-formed string literal. String literals may
                 // contain newlines, so compute the end line and
                 // column from the end offset.
-                let (end_line_number, end_column) =
-                    lp.from_offset(offset + string_match.end());
+                let (end_line_number, end_column) = lp.from_offset(offset + string_match.end());
 
                 tokens.push(Token {
                     position: Position {
